@@ -96,14 +96,18 @@ Definition ac3_read_normal (bitstream_id : Z) (r : bitreader) : option (result (
     if sr_code =? 3 then Some (Raise EMutagen, r)
     else rd 6 (fun frame_size_code r =>
       if frame_size_code >? 37 then Some (Raise EMutagen, r)
-      else sk 5 (sk 3 (rd 3 (fun channel_mode => sk 2 (rd 1 (fun lfe_on r =>
+      else sk 5 (sk 3 (rd 3 (fun channel_mode =>
+        (* the fields between the channel mode and the LFE flag depend on the channel mode (A/52 5.3.2) *)
+        (if negb (channel_mode mod 2 =? 0) && negb (channel_mode =? 1) then sk 2 else (fun k => k)) (
+        (if negb ((channel_mode / 4) mod 2 =? 0) then sk 2 else (fun k => k)) (
+        (if channel_mode =? 2 then sk 2 else (fun k => k)) (rd 1 (fun lfe_on r =>
         let sr_shift := Z.max bitstream_id 8 - 8 in
         match idx sr_code gen_ac3_sample_rates, idx (frame_size_code / 2) gen_ac3_bitrates, assoc_z channel_mode gen_ac3_channels with
         | Some rate, Some kbps, Some nf =>
           ac3_skip_normal channel_mode (Ok [rate / 2 ^ sr_shift; kbps * 1000 / 2 ^ sr_shift; nf + lfe_on]) r
         | None, _, _ | _, None, _ => Some (Raise EIndex, r)
         | _, _, None => Some (Raise EMutagen, r)
-        end))))) r) r)) r.
+        end))))))) r) r)) r.
 
 (* _skip_unused_header_bits_enhanced *)
 Definition eac3_skip (frame_type channel_mode sr_code numblocks_code : Z) (res : result (list Z)) (r : bitreader)
@@ -188,8 +192,9 @@ Definition ac3_check (p : ac3_p) : bool :=
   | Ok l => list_eqb (firstn 4 l) (expected_ac3 p)
   | Raise _ => false
   end.
-(* the channel modes for which the code reads lfeon from the right bit: exactly one two-bit field after acmod *)
+(* the channel modes with exactly one two-bit field between acmod and lfeon, and the others (0 or 2 fields) *)
 Definition ac3_good_acmods : list Z := [2; 3; 4; 6].
+Definition ac3_other_acmods : list Z := [0; 1; 5; 7].
 
 Definition eac3_domain : list eac3_p :=
   flat_map (fun strmtyp => flat_map (fun frmsiz => flat_map (fun fscod => flat_map (fun code2 =>
